@@ -179,11 +179,21 @@ def tileset_sources(F, S):
     eng = Engine(F, S)
     ex = eng.analyze(th, frozenset()) or frozenset()
     good = any(f[0] == "ev" and f[1] == "passed" and "tilesetHeader" in repr(f) for f in ex)
+    # the comparison covers the whole 10-byte marker (array equality, or memcmp over sizeof): a prefix comparison would
+    # accept bytes the writer never emits
+    whole = False
+    for nd in th.nodes:
+        if nd["k"] == "CXXOperatorCallExpr" and nd.get("op") in ("!=", "==") and "tilesetHeader" in repr(th.term(nd["id"])) \
+                and all("std::array<char, 10>" in (th.n(th.strip(a)).get("ct") or "") for a in nd.get("args", [])):
+            whole = True
+        if nd["k"] in CALLS and nd.get("fname") == "memcmp" and len(nd.get("args", [])) == 3 and th.term(nd["args"][2]) == ("const", 10):
+            whole = True
+    good = good and whole
     inst = M + "::ReadTilesetHeader#marker"
     if good:
-        out.append(ok("R-MUSTCALL", inst, th.loc(th.body), th.qn, "the 'TILE SET' marker is compared and a mismatch refused", "refusal on every returning path"))
+        out.append(ok("R-MUSTCALL", inst, th.loc(th.body), th.qn, "all 10 bytes of the 'TILE SET' marker are compared and a mismatch refused", "whole-array comparison; refusal on every returning path"))
     else:
-        out.append(bad("R-MUSTCALL", inst, th.loc(th.body), th.qn, "the 'TILE SET' marker is compared and a mismatch refused", "no such refusal"))
+        out.append(bad("R-MUSTCALL", inst, th.loc(th.body), th.qn, "all 10 bytes of the 'TILE SET' marker are compared and a mismatch refused", "no whole-marker refusal"))
     return out
 
 
